@@ -17,7 +17,8 @@ RULE = ("cases are trees over XML-legal names (ASCII and non-ASCII NCNames), pre
         "values also without tab/newline), no tail on the root; built through the public API. For the EML exporter additionally: no "
         "node with both text and children, no pre-escaped entity spellings or para tags in content. Each tree goes through "
         "metapype_io.to_xml (+ re-import) and export.to_xml. distinct = distinct tree values; non-trivial = trees in which some value "
-        "contains a character that needs escaping")
+        "contains a character that needs escaping"
+        ". Also: fragments (inner nodes, copies of inner nodes), the same objects exported again after in-place edits (attribute values, content, prefix, name, tail, children)")
 ASSUMPTIONS = [
     "two prefixes bound to one URI in one scope and default namespaces are outside the quantifier (never generated)",
     "content and tail are compared after strip() with None == '' (the exporter indents)",
